@@ -226,6 +226,7 @@ func (srv *Srv) String() string {
 }
 
 func (req *SrvReq) process() {
+	verifPoint("process.start", req)
 	req.Lock()
 	flushed := (req.status & reqFlush) != 0
 	if !flushed {
@@ -233,6 +234,7 @@ func (req *SrvReq) process() {
 	}
 	req.Unlock()
 
+	verifPoint("process.marked", req)
 	if flushed {
 		req.Respond()
 	}
@@ -243,12 +245,14 @@ func (req *SrvReq) process() {
 		req.Process()
 	}
 
+	verifPoint("process.work.done", req)
 	req.Lock()
 	req.status &= ^reqWork
 	if req.status&reqResponded == 0 {
 		req.status |= reqSaved
 	}
 	req.Unlock()
+	verifPoint("process.done", req)
 }
 
 // Performs the default processing of a request. Initializes
@@ -374,6 +378,7 @@ func (req *SrvReq) Respond() {
 	var flushreqs *SrvReq
 
 	conn := req.Conn
+	verifPoint("respond.enter", req)
 	req.Lock()
 	status := req.status
 	req.status |= reqResponded
@@ -384,6 +389,7 @@ func (req *SrvReq) Respond() {
 		return
 	}
 
+	verifPoint("respond.claimed", req)
 	/* remove the request and all requests flushing it */
 	conn.Lock()
 	nextreq := req.prev
@@ -409,6 +415,7 @@ func (req *SrvReq) Respond() {
 		flushreqs = req.flushreq
 	}
 	conn.Unlock()
+	verifPoint("respond.unlinked", req)
 
 	if rop, ok := (req.Conn.Srv.ops).(SrvReqProcessOps); ok {
 		rop.SrvReqRespond(req)
@@ -416,10 +423,12 @@ func (req *SrvReq) Respond() {
 		req.PostProcess()
 	}
 
+	verifPoint("respond.posted", req)
 	if (status & reqFlush) == 0 {
 		conn.reqout <- req
 	}
 
+	verifPoint("respond.queued", req)
 	// process the next request with the same tag (if available)
 	if nextreq != nil {
 		go nextreq.process()
@@ -431,6 +440,7 @@ func (req *SrvReq) Respond() {
 	for freq := flushreqs; freq != nil; freq = freq.flushreq {
 		freq.Respond()
 	}
+	verifPoint("respond.exit", req)
 }
 
 // Should be called to cancel a request. Should only be called
